@@ -21,7 +21,7 @@ RULE = (
     "square: exhaustive x_num,y_num in 2..12 (121 grids) x 2 random float parameter sets (quick) / 2..16 x 4 (thorough), "
     "plus random grids up to 40, plus malformed (num in {1,0,-1}); spiral/spiral_fermat: random finite float parameters "
     "(ranges, dr, nth/factor incl. non-integers, dr_y absent or ratio 0.25..4, tilt incl. 0 and -pi/2, negative ranges/dr) "
-    "bounded to <= 700 loop iterations, plus error stream (dr=0, nth=0, factor=0, dr_y=0); every case compares the whole "
+    "bounded to about 300 loop iterations, plus error stream (dr=0, nth=0, factor=0, dr_y=0); every case compares the whole "
     "angle sequence and point list bit-exactly; non-trivial = at least 4 points emitted and (spiral) at least one candidate rejected")
 
 
@@ -106,7 +106,7 @@ def _spiral_case(rng, kind):
             est = abs(p) * nr * nr / 2
         else:
             est = (1.5 * diag / (dr / p)) ** 2
-        if est <= 700:
+        if est <= (300 if kind == "spiral" else 260):
             return c
 
 
